@@ -62,6 +62,11 @@ def run_(ctx):
         "effect on a request is the operation Fail h o / nothing, which the theorems allow at any point of any history; the "
         "direct oracle exercises it (stalled / failing streaming slicer with calls queued behind it, lost in that window)",
         "transports are in-memory; TLS and real sockets are not involved",
+        "both correspondences compare WHAT IS DELIVERED to every Deferred by class (c03_impl.delivered: callback / the remote "
+        "failure = CopiedFailure or RemoteException / local Violation / DeadReferenceError / anything else) with the model's "
+        "outcome; OViolation, OSendFail and OLocal are all a foolscap.tokens.Violation on the real Deferred and differ only by "
+        "the path that produced them, which is what the recorded operation label says (a local Violation reported by either "
+        "unslicer after its request id was read is AnswerViolation rid, also inside an error sequence)",
     ]
     ok, log = ctx.coq_build(["props/C03.vo"])
     before = len(ctx.failures)
@@ -412,7 +417,7 @@ def gen_ops(rng, n):
         elif x < 0.58:
             ops.append(("Complete", rng.randint(0, ncalls - 1)))
         elif x < 0.72:
-            ops.append(("Fail", rng.randint(0, ncalls - 1), rng.choice([4, 5, 7])))
+            ops.append(("Fail", rng.randint(0, ncalls - 1), rng.choice([2, 4, 5, 7])))
         elif x < 0.78:
             ops.append(("Finish", rng.choice(REASON_NAMES)))
         elif x < 0.86:
@@ -498,7 +503,10 @@ def coq_op(op, impl):
 
 BODY = """
 Local Open Scope Z_scope.
-Definition coarse (o : outcome) : Z := match o with OResult => 1 | ODeadRef => 4 | _ => 0 end.
+(* the class of what is delivered to the caller (harness/c03_impl.py `delivered`): ocode, except that OViolation / OSendFail /
+   OLocal are all a foolscap.tokens.Violation on the real Deferred *)
+Definition coarse (o : outcome) : Z :=
+  match o with OResult => 1 | ORemoteError => 2 | OViolation | OSendFail | OLocal => 3 | ODeadRef => 4 | OOther => 7 end.
 Definition flat (s : st) : list Z :=
   map fst (table s) ++ [-1] ++ flat_map (fun c => map coarse (c_fires c) ++ [-2]) (calls s)
   ++ [-1; if disconnected s then 1 else 0] ++ map qcode (evq s) ++ [-1; Z.of_nat (raised s)].
@@ -561,7 +569,10 @@ Definition bytes7 (w : int) : list Z :=
   [byte_at w 48%uint63; byte_at w 40%uint63; byte_at w 32%uint63; byte_at w 24%uint63; byte_at w 16%uint63; byte_at w 8%uint63;
    byte_at w 0%uint63].
 Definition unpack (len : Z) (ws : list int) : list Z := firstn (Z.to_nat len) (flat_map bytes7 ws).
-Definition coarse (o : outcome) : Z := match o with OResult => 1 | ODeadRef => 4 | _ => 0 end.
+(* the class of what is delivered to the caller (harness/c03_impl.py `delivered`): ocode, except that OViolation / OSendFail /
+   OLocal are all a foolscap.tokens.Violation on the real Deferred *)
+Definition coarse (o : outcome) : Z :=
+  match o with OResult => 1 | ORemoteError => 2 | OViolation | OSendFail | OLocal => 3 | ODeadRef => 4 | OOther => 7 end.
 Definition flat (s : st) : list Z :=
   map fst (table s) ++ [-1] ++ flat_map (fun c => map coarse (c_fires c) ++ [-2]) (calls s)
   ++ [-1; if disconnected s then 1 else 0] ++ map qcode (evq s) ++ [-1; Z.of_nat (raised s)].
